@@ -140,4 +140,5 @@ def build_props(PROPS):
         level='other', quick=ALL(['cli_parse_line', 'cli_sanitize', 'cli_parse_file_bounded', 'cli_main_bounded']),
         level_text='Mixed: two unbounded contract proofs and two bounded stand-ins. PROVED for every line of every length < 2^31 (job cli_parse_line, the body of the getline loop of parse_file, cut out of bin/main.c mechanically on every run): no access outside the line buffer; a line starting with "#" produces nothing; any other line leads to exactly one call eav_is_email(eav, t, n) with (t, n) the line after the trimming of the property (terminator LF / CRLF, one leading space, one trailing blank; a NUL inside the line ends it), exactly one PASS or FAIL record that agrees with that call and echoes sanitize_utf8(t, n), and the eav_errstr line after a FAIL. PROVED for every text of every length <= 2^31 (job cli_sanitize): sanitize_utf8 never writes outside its growing buffer, returns NUL-terminated text, and echoes text without control characters unchanged. BOUNDED (never counted as proved): the getline loop, prologue and epilogue of parse_file as a whole for files of <= 5 lines of <= 8 bytes (job cli_parse_file_bounded: one record per non-comment line in input order, file closed, every buffer released even though getline re-allocates on each call, no memory error), and main() for <= 2 file arguments (job cli_main_bounded: eav_init, eav_setup on the untouched defaults, one parse_file per argument, eav_free, exit status).',
         level_note='Why not one proof: DFCC loop contracts cannot carry a heap buffer that one iteration frees / re-allocates and the next one uses ("dynamic allocation is allowed", "ptr is freeable" are not provable after the loop havoc), so the loop of parse_file is split into its body (proved) and the loop skeleton (bounded). What is NOT decided: termination and memory safety of the loop skeleton beyond the bound; that the verdict printed equals the decision of the real library (the check pins the arguments handed to eav_is_email and that the record follows its answer; what eav_is_email decides is C01-C19); stdio itself, locale, real getline (models A8); files with 2^31 or more lines (int counters). The three CLI defects repaired earlier (empty line, one-blank line, long / invalid-UTF-8 line) are each an obligation of these jobs now.',
+        explanation='contract proofs (CBMC/DFCC, unbounded) of the mechanically extracted loop body of parse_file and of sanitize_utf8, plus two bounded CBMC runs (unwinding assertions) of parse_file as a whole and of main(); the bounded jobs are listed under bounded_jobs_not_counted_as_proved',
         trusted_base=TB_COMMON + ['tools/extract_cli_body.py (the mechanical extraction of the loop body; its rules are must-fire, a mismatch makes the job undecided)'], technique=TECH)
